@@ -7,7 +7,7 @@ CONSTANT FnNames <- FN12
 CONSTANT FnTab <- Tabs
 CONSTANT AdminSet <- Adm1
 CONSTANT MaxSetFn = 1
-CONSTANT MaxRuns = 2
+CONSTANT MaxRuns = 1
 CONSTANT MaxWrites = 2
 CONSTANT Dev <- DevSkipTomb
 SPECIFICATION Spec
